@@ -501,3 +501,33 @@ Example kexpr_nonvacuous :
                                (inr (GScal (GFloat (XFin (1#4))))) (GScal GNone))) (GScal (GInt (-1))) in
   bind (json_rt (kser (kemb e))) (kdeser 5) = Ok (kemb (kcanon e)).
 Proof. vm_compute. reflexivity. Qed.
+
+(* ------------------------------------------------------------------ *)
+(* re-serialising a restored value gives the content that was read: the JSON form of a value is the
+   serialised form of its restored (canonical) value *)
+Definition Q_val (g : gval) : Prop := wf g -> json_rt (ser (emb g)) = Ok (ser (emb (canon g))).
+Definition Q_dict (d : gdict) : Prop :=
+  wf_dict d -> json_rt (VDict (ser_items (emb_dict d))) = Ok (VDict (ser_items (emb_dict (canon_dict d)))).
+
+Theorem reserialise_stable_all : forall g, Q_val g.
+Proof.
+  apply (gval_mut Q_val Q_dict); unfold Q_val, Q_dict.
+  - intros s Hs. destruct s as [|b|z|f|t|f|z]; reflexivity.
+  - intros numpy k sh d (Hsh & Hlen & Hrep & Hki).
+    assert (Es : forall np, ser (emb (GArr np k sh d))
+               = tagged "jax.numpy" [(VStr "data", tolist k sh d); (VStr "dtype", VStr (dtype_name k));
+                                     (VStr "shape", VList (map VInt sh))]) by (intros np; destruct np; reflexivity).
+    cbn [canon]. rewrite !Es. unfold tagged. rewrite !json_rt_dict_cons, json_rt_dict_nil.
+    rewrite json_rt_tolist by assumption. rewrite json_rt_shape. reflexivity.
+  - intros a b c _. destruct a, b, c; reflexivity.
+  - intros d IH Hw. cbn [emb canon]. rewrite !ser_dict. fold ser_items. unfold tagged.
+    rewrite !json_rt_dict_cons, json_rt_dict_nil. rewrite (IH Hw). reflexivity.
+  - intros l Hw. cbn [emb canon]. rewrite !ser_set. unfold tagged.
+    rewrite !json_rt_dict_cons, json_rt_dict_nil. cbn [json_rt]. unfold rmap.
+    rewrite (json_ser_scalars l Hw). cbn [bind]. do 6 f_equal. rewrite !map_map.
+    clear. induction l as [|s l IH]; [reflexivity|]. cbn [map]. rewrite IH.
+    destruct s; reflexivity.
+  - intros _. reflexivity.
+  - intros k v IHv r IHr [Hv Hr]. cbn [emb_dict ser_items canon_dict]. rewrite json_rt_dict_cons.
+    rewrite (IHv Hv), (IHr Hr). reflexivity.
+Qed.
